@@ -358,8 +358,137 @@ func (fc *FnCtx) specialHigher(ins ssa.Instruction, callee *ssa.Function, cc *ss
 	case "(*sync.Once).Do":
 		return fc.onceDo(ins, cc, setResult)
 	}
+	if strings.HasPrefix(callee.String(), "github.com/samber/lo.Map[") && fc.loMap(ins, cc, args, setResult) {
+		return true
+	}
 	if fc.atomicModel(ins, callee, args, setResult) {
 		return true
 	}
 	return fc.utilMap(ins, callee, cc, args, setResult)
+}
+
+// resultOnly: the contract expression mentions nothing but the callee's result (and literals / spec functions),
+// so its truth does not depend on the heap state it is evaluated in.
+func resultOnly(n *CNode, cs *ContractSet) bool {
+	if n == nil {
+		return true
+	}
+	switch n.Kind {
+	case "ident":
+		return n.Name == "result" || n.Name == "result0"
+	case "old", "quant", "index", "slice":
+		return false
+	case "call":
+		if _, ok := cs.Specs[n.Name]; !ok {
+			return false
+		}
+	case "field":
+		// field selection of a struct value is state independent; through a pointer it is not (checked by the sort below)
+	}
+	for _, a := range n.Args {
+		if !resultOnly(a, cs) {
+			return false
+		}
+	}
+	return true
+}
+
+// loMap models lo.Map(collection, f) for a closure f under contract: the result has one element per input
+// element and every element satisfies those postconditions of f that speak about f's result value only;
+// whatever f may modify is havocked as a whole.
+func (fc *FnCtx) loMap(ins ssa.Instruction, cc *ssa.CallCommon, args []Val, setResult func([]Val)) bool {
+	g := fc.g
+	if len(cc.Args) != 2 {
+		return false
+	}
+	ci := fc.closureOf(cc.Args[1])
+	if ci == nil || ci.fn.Blocks == nil {
+		return false
+	}
+	c := g.findContract(ci.fn)
+	if c == nil || c.Inline || !c.ModSet {
+		return false
+	}
+	sig := ci.fn.Signature
+	if sig.Results().Len() != 1 {
+		return false
+	}
+	et := sig.Results().At(0).Type()
+	if _, isStruct := et.Underlying().(*types.Struct); !isStruct {
+		if _, isBasic := et.Underlying().(*types.Basic); !isBasic {
+			return false
+		}
+	}
+	g.trusted["built-in model: lo.Map(xs, f) returns len(xs) elements, each satisfying the result-only postconditions of f's contract ("+shortPkg(c.Key)+"); what f may modify is havocked as a whole"] = true
+	old := fc.cur.clone()
+	env := fc.envAt(fc.cur, nil)
+	env.vars = map[string]Val{}
+	if c.Pkg != "" {
+		if p := g.ld.typesPkg(c.Pkg); p != nil {
+			env.pkg = p
+		}
+	}
+	pn, _ := sigNames(sig, c, false)
+	for i := 0; i < sig.Params().Len() && i < len(pn); i++ {
+		pt := sig.Params().At(i).Type()
+		ph := g.fresh(fc.prefix+"lomap.arg", g.sortOf(pt))
+		env.vars[pn[i]] = Val{t: ph, ty: pt}
+	}
+	targets, all := env.resolveModifies(c.Modifies)
+	if all {
+		keep := map[string]string{}
+		for _, t := range targets {
+			keep[t.key] = g.get(fc.cur, t.key)
+		}
+		g.havocAll(fc.cur, "lo.Map")
+		for k, v := range keep {
+			fc.cur.m[k] = v
+		}
+		fc.restorePrivate(old)
+	} else {
+		for _, t := range targets {
+			if t.whole && t.fresh {
+				oldK := g.get(fc.cur, t.key)
+				g.havocKey(fc.cur, t.key, "lo.Map")
+				fc.assume(fmt.Sprintf("(forall ((|o| Int)) (! (=> (<= |o| %s) (= (select %s |o|) (select %s |o|))) :pattern ((select %s |o|))))", g.get(old, "$alloc"), g.get(fc.cur, t.key), oldK, g.get(fc.cur, t.key)), "objects that existed before the call keep their contents")
+			} else {
+				g.havocKey(fc.cur, t.key, "lo.Map")
+			}
+		}
+		oa := g.get(fc.cur, "$alloc")
+		g.havocKey(fc.cur, "$alloc", "lo.Map")
+		fc.assume(fmt.Sprintf("(<= %s %s)", oa, g.get(fc.cur, "$alloc")), "alloc grows")
+		for _, t := range targets {
+			if g.keys[t.key].ref != "" {
+				g.heapBound(t.key, g.get(fc.cur, t.key), g.get(fc.cur, "$alloc"))
+			}
+		}
+	}
+	// the result slice
+	rst := types.NewSlice(et)
+	g.markAlloc(rst)
+	r := fc.newRef()
+	k := g.arrKey(et)
+	arr := g.fresh(fc.prefix+"lomap.arr", "(Array Int "+g.sortOf(et)+")")
+	g.set(fc.cur, k, fmt.Sprintf("(store %s %s %s)", g.get(fc.cur, k), r, arr))
+	n := fmt.Sprintf("(slen %s)", args[0].t)
+	res := g.def(fc.prefix+"lomap.res", "Slice", fmt.Sprintf("(mkslice %s 0 %s %s)", r, n, n))
+	penv := env.sub()
+	penv.state = fc.cur
+	penv.oldState = old
+	el := Val{t: fmt.Sprintf("(select %s |lm.i|)", arr), ty: et}
+	penv.vars["result"] = el
+	penv.vars["result0"] = el
+	for _, en := range c.Ensures {
+		if !resultOnly(en.Expr, g.cs) {
+			continue
+		}
+		body := penv.boolExpr(en.Expr)
+		fc.assume(fmt.Sprintf("(forall ((|lm.i| Int)) (! (=> (and (<= 0 |lm.i|) (< |lm.i| %s)) %s) :pattern ((select %s |lm.i|))))", n, body, arr), "lo.Map: every element satisfies "+en.Src)
+	}
+	if rc := g.sorts.rangeConstraint(et, el.t); rc != "" {
+		fc.assume(fmt.Sprintf("(forall ((|lm.i| Int)) (! %s :pattern ((select %s |lm.i|))))", rc, arr), "range")
+	}
+	setResult([]Val{{t: res, ty: rst}})
+	return true
 }
